@@ -2,7 +2,9 @@
 """Regenerates /verif/known_findings.json. Entries: fixed(...) documents a repaired defect (it
 suppresses nothing); known(...) lists a genuine defect that is recorded instead of repaired,
 identified by exact violation signatures. Run by hand when a finding is added; never at check time."""
-import json, subprocess
+import json, os, subprocess
+
+ROOT = os.path.dirname(os.path.dirname(os.path.abspath(__file__)))
 
 LOG = subprocess.check_output(['git', '-C', '/repo', 'log', '--format=%h %s']).decode().splitlines()
 F = []
@@ -24,6 +26,6 @@ def known(prop, id, what, sigs, witness=None):
         e["witness"] = witness
     F.append(e)
 
-exec(open('/verif/scripts/findings_table.py').read())
-json.dump(F, open('/verif/known_findings.json', 'w'), indent=1)
+exec(open(ROOT + '/scripts/findings_table.py').read())
+json.dump(F, open(ROOT + '/known_findings.json', 'w'), indent=1)
 print(len(F), "entries")
